@@ -3,6 +3,9 @@
 Public API (keep it small):
 
     ZOO                      list of (policy_key, env_name) pairs that run on CPU in this sandbox
+    OWN_LOOP                 (policy_key, env_name) pairs with their own decoding loop (MultiStageFFSPPolicy, MDAM): built by
+                             build_policy too, checked by dedicated sub-checks (C11 matnet_ffsp / mdam, C14 batchings)
+    NO_FORCED_START          envs whose reset admits a single first move (no multistart / beam forced starts: C12)
     DROPPED                  {(policy_key, env_name) or policy_key: reason}  - entries of DESIGN's matrix that do not
     INFO[policy_key]         dict(batchnorm=bool, constructive=bool, multistart=bool, eval_only=bool)
     small_cfg(env_name, n)   -> config dict for vf.envs.SPECS[env_name] (cvrptw scale=True, mtsp >= 2 agents, ...)
@@ -41,12 +44,28 @@ ZOO = [
     ("l2d", "jssp"), ("l2d", "fjsp"),
     ("mvmoe", "mtvrp"),
     ("ptrnet", "tsp"),
+    # multi-depot pickup-delivery (AM falls back to the static dynamic-embedding, logged) and decap placement on the
+    # synthetic PDN data of vf/eda.py (MDPP needs chips >= 8x8)
+    ("am", "mdcpdp"), ("am", "dpp"), ("am", "mdpp"),
 ]
+# Policies with their OWN decoding loop (no DecodingStrategy, no evaluate path): dedicated sub-checks in C11 / C14.
+#   matnet_ffsp  rl4co.models.zoo.matnet.policy.MultiStageFFSPPolicy on FFSPEnv(flatten_stages=False):
+#                forward(td, env, phase, num_starts) -> reward, summed log_likelihood, actions
+#   mdam         rl4co.models.zoo.mdam.MDAMPolicy: one reward / log-likelihood per decoder path, last path's actions
+OWN_LOOP = [("matnet_ffsp", "ffsp"), ("mdam", "tsp"), ("mdam", "cvrp"), ("mdam", "op"), ("mdam", "pctsp")]
+MDAM_PATHS = 3
+# envs whose reset state admits exactly one first move: the generic start rule (nodes 1..k) can never be forced there
+# (start rules are C12's business), so forced-start decode modes are not drawn for them
+NO_FORCED_START = ("mdcpdp",)
 DROPPED = {
     "l2d_attn": "L2DAttnPolicy cannot decode at all in the pinned tree ('tuple' object has no attribute 'node_embeddings')",
     "nargnn": "needs torch_geometric (not installed)",
     "deepaco": "needs torch_geometric / numba (not installed)",
-    "mdam": "own multi-decoder loop, no evaluate path, one reward per path (DESIGN C11 limits)",
+    "mdam": "own multi-decoder loop, no evaluate path, one reward per path: not in ZOO; covered path-wise by the dedicated "
+            "sub-checks (C11 `mdam`, C14 batchings); MDAM/sdvrp cannot decode at any batch size",
+    ("matnet", "ffsp"): "MatNetPolicy(env_name='ffsp') cannot be constructed in the pinned tree (TypeError: "
+                        "AttentionModelDecoder.__init__() got an unexpected keyword argument 'out_bias'); the FFSP model "
+                        "that does run is MultiStageFFSPPolicy (OWN_LOOP entry matnet_ffsp)",
     "mvmoe_light": "light gating averages over the batch and samples an expert at inference (by design, DESIGN C14)",
 }
 INFO = {
@@ -62,6 +81,9 @@ INFO = {
     "mvmoe": dict(batchnorm=True, constructive=True, multistart=True, eval_only=True),
     # PointerNetworkPolicy is not a ConstructivePolicy: own loop, `eval_tours` instead of `actions`, summed LL only
     "ptrnet": dict(batchnorm=False, constructive=False, multistart=False),
+    # own loops (OWN_LOOP): instance norm (MatNet encoders) / batch norm (MDAM encoder); hard-coded float32 buffers
+    "matnet_ffsp": dict(batchnorm=False, constructive=False, multistart=False),
+    "mdam": dict(batchnorm=True, constructive=False, multistart=False),
 }
 POLYNET_K = 3
 
@@ -96,6 +118,21 @@ def small_cfg(env_name, n):
     if env_name == "fjsp":
         return {"jobs": max(2, min(n - 2, 4)), "mas": 2, "min_ops": 1, "max_ops": 2, "max_pt": 9, "max_elig": 2,
                 "same_mean": False, "mask_no_ops": True}
+    if env_name == "mdcpdp":
+        # fixed episode length n + 2*depots - 1; one capacity per depot (generator)
+        return {"n": max(2, 2 * (n // 2)), "depots": 2, "dist_mode": "L2", "reward_mode": "minmax",
+                "problem_mode": "close", "depot_mode": "multiple", "max_cap": 2, "lw": 0.5}
+    if env_name == "dpp":
+        # synthetic PDN data (vf/eda.py): chip 4x4 / 5x5, quota n-2 decaps (fixed episode length), 1-3 keep-out cells
+        return {"size": 4 if n <= 6 else 5, "k": max(2, n - 2), "keepout_min": 1, "keepout_max": 3}
+    if env_name == "mdpp":
+        # MDPP needs chips >= 8x8 (GOTCHAS): 64 cells, 1-3 probing ports
+        return {"size": 8, "k": max(2, n - 2), "keepout_min": 1, "keepout_max": 3, "probes_min": 1, "probes_max": 3,
+                "reward_type": "minmax"}
+    if env_name == "ffsp":
+        # un-flattened stages (what MultiStageFFSPPolicy asserts); run times 1..4; >= 3 jobs / 2 machines per stage (the
+        # MatNet encoders normalise per instance over the job / machine axis: ill-conditioned over 2, undefined over 1)
+        return {"jobs": max(3, min(n - 1, 5)), "stages": 2, "mas": 2, "max_time": 5, "flatten": False}
     raise KeyError(env_name)
 
 
@@ -134,17 +171,22 @@ def expand_starts(td, k):
 class DeterministicMatNetInit(nn.Module):
     """Functionally identical to rl4co MatNetInitEmbedding(mode='RandomOneHot') (zero row embeddings, one-hot column
     embeddings given by a permutation of the columns, the cost matrix passed through), except that the permutation is
-    derived from a hash of the row's cost matrix instead of the global RNG (DESIGN §2.5)."""
+    derived from a hash of the row's cost matrix instead of the global RNG (DESIGN §2.5).  Integer matrices (the FFSP
+    run-time tables MultiStageFFSPPolicy feeds its stage encoders) get float32 embeddings as in the original (float64
+    once the enclosing policy has been cast with .double())."""
 
     def __init__(self, embed_dim):
         super().__init__()
         self.embed_dim = embed_dim
+        # follows .double() of the enclosing policy: dtype of the embeddings made for integer matrices
+        self.register_buffer("_dtype_probe", torch.zeros(()), persistent=False)
 
     def forward(self, td):
         dmat = td["cost_matrix"]
         b, r, c = dmat.shape
-        row_emb = torch.zeros(b, r, self.embed_dim, device=dmat.device, dtype=dmat.dtype)
-        col_emb = torch.zeros(b, c, self.embed_dim, device=dmat.device, dtype=dmat.dtype)
+        dt = dmat.dtype if dmat.dtype.is_floating_point else self._dtype_probe.dtype
+        row_emb = torch.zeros(b, r, self.embed_dim, device=dmat.device, dtype=dt)
+        col_emb = torch.zeros(b, c, self.embed_dim, device=dmat.device, dtype=dt)
         for i in range(b):
             raw = dmat[i].detach().to(torch.float32).contiguous().cpu().numpy().tobytes()
             s = int.from_bytes(hashlib.blake2b(raw, digest_size=8).digest(), "big") % (2 ** 62)
@@ -155,9 +197,20 @@ class DeterministicMatNetInit(nn.Module):
 
 
 # --------------------------------------------------------------------------- construction
-def _construct(key, env_name, embed_dim, norm):
+def _construct(key, env_name, embed_dim, norm, env=None):
     heads = 4
     ff = 2 * embed_dim
+    if key == "matnet_ffsp":
+        from rl4co.models.zoo.matnet.policy import MultiStageFFSPPolicy
+        p = MultiStageFFSPPolicy(stage_cnt=int(env.num_stage), embed_dim=embed_dim, num_heads=heads, num_encoder_layers=2,
+                                 normalization=norm or "instance", feedforward_hidden=ff)
+        for enc in p.encoders:  # RandomOneHot draws from the global RNG per forward (by design): DESIGN 2.5
+            enc.init_embedding = DeterministicMatNetInit(embed_dim)
+        return p
+    if key == "mdam":
+        from rl4co.models.zoo.mdam import MDAMPolicy
+        return MDAMPolicy(env_name=env_name, embed_dim=embed_dim, num_encoder_layers=2, num_heads=heads,
+                          num_paths=MDAM_PATHS)
     if key == "am":
         from rl4co.models import AttentionModelPolicy
         return AttentionModelPolicy(env_name=env_name, embed_dim=embed_dim, num_encoder_layers=2, num_heads=heads,
@@ -210,7 +263,8 @@ _CACHE = OrderedDict()
 
 
 def build_policy(policy_key, env_name, env=None, seed=0, spread=1.5, embed_dim=32, double=False, norm=None):
-    ck = (policy_key, env_name, int(seed), float(spread), int(embed_dim), bool(double), norm)
+    ck = (policy_key, env_name, int(seed), float(spread), int(embed_dim), bool(double), norm,
+          int(env.num_stage) if policy_key == "matnet_ffsp" else None)
     if ck in _CACHE:
         _CACHE.move_to_end(ck)
         p = _CACHE[ck]
@@ -219,7 +273,7 @@ def build_policy(policy_key, env_name, env=None, seed=0, spread=1.5, embed_dim=3
     state = torch.get_rng_state()
     try:
         torch.manual_seed(int(seed))
-        p = _construct(policy_key, env_name, embed_dim, norm)
+        p = _construct(policy_key, env_name, embed_dim, norm, env)
         with torch.no_grad():
             for name, prm in p.named_parameters():
                 if prm.requires_grad and prm.dim() >= 2:
